@@ -112,6 +112,16 @@ Json::Value baseline(uint64_t seed) {
   }
   w.cgs.push_back(mkCg(r, "work/w2/c", 3, pid));
   w.cgs.push_back(mkCg(r, "work/w3", 2, pid));
+  // a subtree only one, non-recursive, kill action ever looks at (fired at tick 1): its child is not
+  // in oomd's cache when the kill walks down to it
+  w.cgs.push_back(mkCg(r, "solo", 0, pid));
+  {
+    Cg s1 = mkCg(r, "solo/s1", 1, pid);
+    s1.swap_current = int64_t(1) << 33;
+    s1.swap_max = kMax;
+    w.cgs.push_back(s1);
+  }
+  w.cgs.push_back(mkCg(r, "solo/s1/c", 4, pid));
   Host& h = w.host;
   h.meminfo = {{"MemTotal", 16 << 20}, {"MemFree", 4 << 20}, {"MemAvailable", 8 << 20}, {"Buffers", 1024}, {"Cached", 4096}, {"SwapCached", 0}, {"SwapTotal", 4 << 20}, {"SwapFree", 1 << 20}};
   h.vmstat = {{"nr_free_pages", 1000}, {"pgscan_kswapd", r.in(0, 100000)}, {"pgscan_direct", r.in(0, 100000)}, {"pswpin", 5}, {"pswpout", r.in(1000, 100000)}};
@@ -159,6 +169,7 @@ Json::Value baseline(uint64_t seed) {
     cfg["rulesets"].append(rsOf("k" + std::to_string(ki), vdet("d" + std::to_string(ki)), {k, plug("vp_action", {{"id", "after" + std::to_string(ki)}})}));
     ki++;
   }
+  cfg["rulesets"].append(rsOf("ksolo", vdet("dsolo"), {plug("kill_by_swap_usage", {{"cgroup", "solo/*"}, {"post_action_delay", "0"}}), plug("vp_action", {{"id", "aftersolo"}})}));
   // senpai, both modes
   cfg["rulesets"].append(rsOf("senpai", vdet("ds"), {plug("senpai", {{"cgroup", "sys/*"}, {"interval", "0"}, {"limit_min_bytes", "0"}})}));
   cfg["rulesets"].append(rsOf("senpai_i", vdet("ds"), {plug("senpai", {{"cgroup", "sys/*,work/w3"}, {"interval", "0"}, {"immediate_backoff", "true"}, {"pressure_pct", "100"}, {"io_pressure_pct", "100"}, {"swap_validation", "true"}, {"modulate_swappiness", "true"}, {"limit_min_bytes", "0"}})}));
@@ -195,6 +206,10 @@ Json::Value baseline(uint64_t seed) {
     scripts["detectors"]["d" + std::to_string(i)] = s;
   }
   scripts["detectors"]["ds"] = "C";
+  scripts["detectors"]["dsolo"] = Json::Value(Json::arrayValue);
+  scripts["detectors"]["dsolo"].append("S");
+  scripts["detectors"]["dsolo"].append("C");
+  scripts["detectors"]["dsolo"].append("S");
   scripts["detectors"]["dc"] = Json::Value(Json::arrayValue);
   scripts["detectors"]["dc"].append("S");
   scripts["detectors"]["dc"].append("C");
@@ -321,12 +336,17 @@ Json::Value applyStaticFaults(const Json::Value& base, const Json::Value& faults
   return sc;
 }
 
+std::vector<std::pair<long, std::string>> g_accessLog; // (k, path) of the last recorded tick
+
 struct RunOut {
   RunResult R;
   long hits{0}; // how often an injected fault was actually hit
   std::vector<long> accessesPerTick;
   int nticks{0};
   std::map<int, std::vector<World>> mutated; // tick -> worlds right after a mid-tick mutation
+  // identity (inode) of every cgroup path in those worlds, and at the start of each tick
+  std::map<int, std::vector<std::map<std::string, uint64_t>>> mutatedIno;
+  std::map<int, std::map<std::string, uint64_t>> startIno;
 };
 
 RunOut runWithFaults(const Json::Value& c) {
@@ -340,6 +360,7 @@ RunOut runWithFaults(const Json::Value& c) {
     if (tick >= 0) {
       if ((int)out.accessesPerTick.size() <= tick) out.accessesPerTick.resize(tick + 1, 0);
       out.accessesPerTick[tick] = k;
+      if (c.isMember("record_tick") && c["record_tick"].asInt() == tick) g_accessLog.emplace_back(k, relOf(sim.cgroot(), path));
     }
     for (auto& f : faults) {
       std::string fk = f["kind"].asString();
@@ -370,6 +391,11 @@ RunOut runWithFaults(const Json::Value& c) {
             }
           }
           out.mutated[tick].push_back(sim.world());
+          {
+            std::map<std::string, uint64_t> ino;
+            for (auto& x : sim.world().cgs) ino[x.path] = sim.inode(x.path);
+            out.mutatedIno[tick].push_back(ino);
+          }
           out.hits++;
         }
       } else if ((fk == "file" || fk == "host") && f["mode"].asString() == "eacces" && tick >= f.get("from", 0).asInt()) {
@@ -390,6 +416,9 @@ RunOut runWithFaults(const Json::Value& c) {
     return d;
   };
   out.nticks = (int)sc["ticks"].size();
+  hooks.on_tick = [&](Sim& sim, int t) {
+    for (auto& x : sim.world().cgs) out.startIno[t][x.path] = sim.inode(x.path);
+  };
   out.R = runDaemon(sc, &hooks);
   for (auto& f : faults)
     if (f["kind"].asString() == "dropkey" || f["kind"].asString() == "dt_unknown" || f["kind"].asString() == "vanish") out.hits++;
@@ -397,7 +426,8 @@ RunOut runWithFaults(const Json::Value& c) {
 }
 
 // containment (C01) on the whole trace, by attempt
-void checkContainment(const RunResult& R, const std::map<int, std::vector<World>>& mutated, Verdict& v) {
+void checkContainment(const RunResult& R, const std::map<int, std::vector<World>>& mutated, Verdict& v, const RunOut* ro = nullptr) {
+  uint64_t vino = 0;
   std::string victim;
   bool have = false;
   int vtick = -1;
@@ -407,6 +437,7 @@ void checkContainment(const RunResult& R, const std::map<int, std::vector<World>
       victim = relOf(R.cgroot, e.p);
       have = true;
       vtick = e.tick;
+      vino = (uint64_t)e.a;
       continue;
     }
     if (e.k == "kill") {
@@ -416,12 +447,27 @@ void checkContainment(const RunResult& R, const std::map<int, std::vector<World>
         v.fail("process " + std::to_string(e.a) + " signalled outside any announced victim (tick " + std::to_string(e.tick) + ")");
         continue;
       }
-      auto sub = R.worlds[vtick].subtreePids(victim);
-      // a cgroup re-created in the middle of the tick lists new processes
+      // the processes of the victim's subtree in every state of the tick in which the path still names
+      // the cgroup that was selected (same identity): a cgroup re-created under the path later in the
+      // tick is another cgroup, it was never selected
+      std::vector<int> sub;
+      auto sameIdentity = [&](const std::map<std::string, uint64_t>* ino) {
+        if (!ino || vino == 0) return true;
+        auto it = ino->find(victim);
+        return it == ino->end() || it->second == 0 || it->second == vino;
+      };
+      {
+        const std::map<std::string, uint64_t>* si = nullptr;
+        if (ro && ro->startIno.count(vtick)) si = &ro->startIno.at(vtick);
+        if (sameIdentity(si)) sub = R.worlds[vtick].subtreePids(victim);
+      }
       auto mi = mutated.find(vtick);
       if (mi != mutated.end())
-        for (auto& mw : mi->second) {
-          auto more = mw.subtreePids(victim);
+        for (size_t k = 0; k < mi->second.size(); k++) {
+          const std::map<std::string, uint64_t>* ino = nullptr;
+          if (ro && ro->mutatedIno.count(vtick) && k < ro->mutatedIno.at(vtick).size()) ino = &ro->mutatedIno.at(vtick)[k];
+          if (!sameIdentity(ino)) continue;
+          auto more = mi->second[k].subtreePids(victim);
           sub.insert(sub.end(), more.begin(), more.end());
         }
       if (e.a > 0 && std::find(sub.begin(), sub.end(), (int)e.a) == sub.end()) {
@@ -457,7 +503,7 @@ Verdict judge(const Json::Value& c) {
     v.fail("main loop stopped after " + std::to_string(o.R.ticks_run) + " ticks");
     return v;
   }
-  checkContainment(o.R, o.mutated, v);
+  checkContainment(o.R, o.mutated, v, &o);
   for (auto& e : o.R.trace)
     if (v.ok && e.k == "plugin" && e.s == "run" && e.s2 == "a_sfr")
       v.fail("swap_free saw a swap-out rate of at least 1 byte/s at tick " + std::to_string(e.tick) + " although pswpout never changed (a statistic that is unavailable must not be reported as a value)");
@@ -481,6 +527,8 @@ long recordAccesses(const Json::Value& base, int tick) {
   Json::Value c(Json::objectValue);
   c["scenario"] = base;
   c["faults"] = Json::Value(Json::arrayValue);
+  c["record_tick"] = tick;
+  g_accessLog.clear();
   RunOut o = runWithFaults(c);
   return tick < (int)o.accessesPerTick.size() ? o.accessesPerTick[tick] : 0;
 }
@@ -564,6 +612,21 @@ std::vector<Json::Value> enumerate(uint64_t bseed) {
     out.back()["always"] = true;
   }
   long n = recordAccesses(base, 1);
+  // the kill walk over the solo subtree: re-creation of its target at every access that touches the subtree
+  // (never sampled away in the quick tier)
+  for (auto& kp : g_accessLog) {
+    if (kp.second.compare(0, 4, "solo") != 0) continue;
+    for (const char* action : {"rm", "recreate"}) {
+      Json::Value f(Json::objectValue);
+      f["kind"] = "access";
+      f["tick"] = 1;
+      f["k"] = (Json::Int64)kp.first;
+      f["cg"] = "solo/s1";
+      f["action"] = action;
+      add(f);
+      out.back()["always"] = true;
+    }
+  }
   for (long k = 1; k <= n; k++)
     for (auto& role : kRoles) {
       if (role.empty()) continue;
